@@ -54,6 +54,31 @@ def gen_case(rng, multi_axis=False, k=None, N=None, general=False, wide=None):
     return base
 
 
+def by_category_missing(rng, case):
+    """make the fact (or the weight) missing on exactly the rows of one or two categories of one dimension and valid
+    elsewhere: whole cells without a valid row next to cells without a missing one (propagating policy)"""
+    if not case["dense"] or case["N"] == 0:
+        return case
+    a = rng.randrange(len(case["dense"]))
+    d = case["dense"][a]
+    col = d if d.ndim == 1 else d.reshape(d.shape[0], -1)[:, 0]
+    cats = sorted(set(int(v) for v in col.tolist()))
+    uncommon = [c for c in cats if c != case["commons"][a]]
+    if uncommon and rng.random() < 0.7:      # mostly non-common categories: their cells are filled by the walk
+        cats = uncommon
+    hit = set(rng.sample(cats, min(len(cats), rng.choice([1, 1, 2]))))
+    rows = np.array([int(v) in hit for v in col.tolist()], dtype=bool)
+    fv = np.ones_like(case["fact_valid"], dtype=bool)
+    if rng.random() < 0.75 or case["weights"] is None or case["weights"][0] == "scalar":
+        fv[rows] = False
+    else:
+        w = case["weights"]
+        case["weights"] = (w[0], w[1], ~rows)
+    case["fact_valid"] = fv
+    case["ignore"] = False
+    return case
+
+
 def fact_arg(case):
     v, ok, form = case["fact_vals"], case["fact_valid"], case["fact_form"]
     if form == "nan":
